@@ -128,6 +128,8 @@ Proof.
     unfold rel_op. split; [|split; [reflexivity | assumption]].
     rewrite sim_items, (proj2 (sim_from_pairs l)). reflexivity.
   - (* Inverted *)
+    change (pm_items p) with (m_items (lift p)).
+    destruct (existsb unhashable (map snd (m_items (lift p)))); [unfold rel_op; reflexivity|].
     unfold rel_op. split; [|split; [reflexivity | assumption]].
     rewrite sim_items, (proj2 (sim_from_pairs _)). reflexivity.
   - (* Sorted *)
